@@ -13,7 +13,7 @@
      3. floats: [int_times_ok] -- start + duration - start reproduces the duration for
         integer-valued times (the general IEEE statement is not proved, see the end).
    The round-trip theorems [circle|spinner|hold]_line_round_trip combine them. *)
-From RM Require Import Model.EncObjCarry Model.HitObjectSpec Proofs.EncText Proofs.EncFmt Proofs.EncFloat Proofs.EncSimple Proofs.EncObjects Proofs.FramingFacts Proofs.NumFacts Proofs.HitObjectLineFacts Proofs.EncObjTimes.
+From RM Require Import Model.EncObjCarry Model.HitObjectSpec Proofs.EncText Proofs.EncFmt Proofs.EncFloat Proofs.EncSimple Proofs.EncObjects Proofs.FramingFacts Proofs.NumFacts Proofs.HitObjectLineFacts Proofs.EncObjTimes Proofs.EncRound.
 From RM Require Import Gen.Generated.
 From Flocq Require Import BinarySingleNaN.
 From Coq Require Import ZifyBool.
@@ -512,22 +512,66 @@ Proof.
 Qed.
 
 (* the decoder image, line level: an invariant of parse_hit_objects for EVERY line (slider lines
-   included): every object in the state has a sample list of the decoder's shape, circles carry a
-   combo offset only next to the new-combo flag, spinners sit at the fixed centre *)
-Theorem parse_line_image st line st' r :
-  Forall (fun h => line_image h = true) (ho_objects st) ->
+   included): every object in the state has a sample list built by convert_sound_type from a
+   SampleBankInfo without a None bank, circles carry a combo offset only next to the new-combo
+   flag, spinners sit at the fixed centre *)
+Definition line_inv (h : HitObject) : Prop := kind_image (h_kind h) = true /\ raw_samples (h_samples h).
+
+Lemma line_inv_image h : line_inv h -> line_image h = true.
+Proof.
+  intros (Hk & b & st & Hb & E). unfold line_image. rewrite Hk, E, (convert_samples_shape _ _ Hb). reflexivity.
+Qed.
+
+Theorem parse_line_inv st line st' r :
+  Forall line_inv (ho_objects st) ->
   parse_hit_objects st line = Done (st', r) ->
-  Forall (fun h => line_image h = true) (ho_objects st').
+  Forall line_inv (ho_objects st').
 Proof.
   intros Hst H. unfold parse_hit_objects in H.
   destruct (parse_header line) as [hd|]; [|inversion H; subst; exact Hst].
   destruct (parse_kind st hd) as [[st1 [[kind bank]|]]| |] eqn:E; try discriminate.
   - destruct (parse_kind_image _ _ _ _ _ E) as (Ho & Hk & Hb). inversion H; subst. cbn [ho_objects].
     rewrite Ho. apply Forall_app. split; [exact Hst|]. constructor; [|constructor].
-    unfold line_image. cbn [h_kind h_samples]. rewrite Hk, (convert_samples_shape _ _ Hb). reflexivity.
+    split; [exact Hk|]. exists bank, (hd_sound hd). split; [exact Hb|reflexivity].
   - inversion H; subst. rewrite (parse_kind_rejected_objects _ _ _ E). exact Hst.
 Qed.
 
+Theorem parse_line_image st line st' r :
+  Forall line_inv (ho_objects st) ->
+  parse_hit_objects st line = Done (st', r) ->
+  Forall (fun h => line_image h = true) (ho_objects st').
+Proof.
+  intros Hst H. pose proof (parse_line_inv st line st' r Hst H) as G.
+  apply Forall_forall. intros h Hh. rewrite Forall_forall in G. exact (line_inv_image h (G h Hh)).
+Qed.
+
+(* the break post-processing only sets new-combo flags: the invariant survives *)
+Lemma force_new_combo_inv h f : line_inv h -> line_inv (force_new_combo h f).
+Proof.
+  intros (Hk & Hs). unfold force_new_combo. destruct (h_kind h) as [c|s|s|hd] eqn:E.
+  - split; [|exact Hs]. cbn [h_kind]. unfold kind_image, circle_image in *. cbn [ci_new_combo ci_combo_offset].
+    destruct (ci_new_combo c); [reflexivity|]. cbn [orb] in Hk. rewrite Hk. apply orb_true_r.
+  - split; [reflexivity|exact Hs].
+  - split; [exact Hk|exact Hs].
+  - split; [rewrite E; exact Hk|exact Hs].
+Qed.
+
+(* the per-object step of the map-level processing: kind clause kept, samples in [samples_image] *)
+Theorem processed_object_inv dist c sm mode h h' :
+  line_inv h ->
+  (forall p, In p (cp_sample c) -> bank13 (sp_bank p) = true) ->
+  process_object dist c sm mode h = Done h' ->
+  kind_image (h_kind h') = true /\ samples_image (h_samples h') = true.
+Proof.
+  intros (Hk & Hs) Hc H. split; [|exact (processed_object_image dist c sm mode h h' Hs Hc H)].
+  unfold process_object in H.
+  destruct (h_kind h) as [ci|s|s|hd] eqn:E; cbn [obind] in H.
+  - inversion H; subst. exact Hk.
+  - destruct (difficulty_point_at c (h_start h)) as [dp| |]; try discriminate. cbn [obind] in H.
+    destruct (slider_duration _ _) as [d| |]; try discriminate. cbn [obind] in H. inversion H; subst. reflexivity.
+  - inversion H; subst. exact Hk.
+  - inversion H; subst. exact Hk.
+Qed.
 
 (* ---------- the round trip ---------- *)
 
@@ -611,3 +655,60 @@ Section RT2.
     unfold hold_time_ok in Ht. rewrite Ht, (reread_carry mode _ Hs). destruct hd. reflexivity.
   Qed.
 End RT2.
+
+Lemma line_inv_create mode : Forall line_inv (ho_objects (ho_create mode)).
+Proof. constructor. Qed.
+
+(* ---------- non-vacuity: decoded objects (map level: sorted, post-processed, sample points
+   applied) satisfy every hypothesis of the three theorems, and the conclusion is checked on
+   dumps with the reference printer ---------- *)
+
+(* [spinner_time_ok] / [hold_time_ok] on bit patterns *)
+Definition time_check (h : HitObject) : bool :=
+  match h_kind h with
+  | KSpinner s => D.bits (f64_max_lit (D.sub (D.add (h_start h) (sp_duration s)) (h_start h)) D.zero) =? D.bits (sp_duration s)
+  | KHold hd => D.bits (D.sub (D.max (h_start h) (D.add (h_start h) (hd_duration hd))) (h_start h)) =? D.bits (hd_duration hd)
+  | _ => true
+  end.
+
+(* one object: encode, render with the reference printer, parse from the state [st]; dump of the carried objects of the new state *)
+Definition reparse (st : HOState) (mode : Z) (h : HitObject) : list Z :=
+  match object_line stub_dist mode h with
+  | Done l =>
+      match parse_hit_objects st (render wit_f64 wit_f32 dec_int l) with
+      | Done (st', Ok) => flat_map (fun o => dump_object (carry_object o)) (ho_objects st')
+      | _ => [-1]
+      end
+  | _ => [-2]
+  end.
+
+(* a state in which an object has been read that was not a spinner *)
+Definition st_mid (mode : Z) : HOState := mkHO (Some hot_circle) [] [] [] mode.
+
+Definition rt_text : str :=
+  join_lines ["osu file format v14"; "[General]"; "Mode: 0"; "[TimingPoints]"; "0,500,4,2,1,60,1,0";
+              "[HitObjects]";
+              "64,192,1000,1,14,0:0:0:0:";            (* all additions, banks from the sample point *)
+              "64,192,1100,1,10,2:0:5:70:a.wav";      (* file + whistle + clap, addition bank falls back to Soft *)
+              "64,192,1200,37,6,0:3:0:0:";            (* new combo, offset 2, finish + whistle in Drum *)
+              "64,192,1300,1,3,1:2:7:30:";            (* normal bit set *)
+              "256,192,1400,12,4,2400,3:1:0:0:";      (* spinner *)
+              "100,192,2500,128,8,3000:0:2:0:0:b.wav" (* hold *)]%string.
+
+Example decoded_objects_round_trip :
+  match decode_beatmap stub_dist (lines_of_text rt_text) with
+  | Done m =>
+      let objs := hov_hit_objects (bmv_ho m) in
+      let mode := g_mode (hov_general (bmv_ho m)) in
+      map (fun h => kind_tag (h_kind h)) objs = [0; 0; 0; 0; 2; 3] /\
+      forallb object_ok objs = true /\
+      forallb (fun h => samples_image (h_samples h)) objs = true /\
+      forallb (fun h => kind_image (h_kind h)) objs = true /\
+      forallb time_check objs = true /\
+      map (fun h => Z.of_nat (length (h_samples h))) objs = [4; 3; 3; 2; 2; 2] /\
+      (* the hypotheses hold, and so does the conclusion: *)
+      map (reparse (st_mid mode) mode) (tl objs) = map (fun h => dump_object (carry_object h)) (tl objs) /\
+      map (reparse (ho_create mode) mode) (firstn 1 objs) = map (fun h => dump_object (carry_object h)) (firstn 1 objs)
+  | _ => False
+  end.
+Proof. vm_compute. repeat split; reflexivity. Qed.
